@@ -79,7 +79,7 @@ func main() {
 }
 
 func runSeq(p *SeqProfile, tier string, seed int64, scratch string, t0 time.Time) int {
-	r := &SeqRun{P: p, Tier: tier, Seed: seed, Scratch: scratch, hists: map[int]*History{}, hhists: map[int][]byte{}, fcases: map[int]frameCase{}, dcases: map[int]bool{}, ncases: map[int]*ncaseRef{}, chists: map[int]string{}, Counts: map[string]int{},
+	r := &SeqRun{P: p, Tier: tier, Seed: seed, Scratch: scratch, hists: map[int]*History{}, hhists: map[int][]byte{}, fcases: map[int]frameCase{}, dcases: map[int]bool{}, ncases: map[int]*ncaseRef{}, chists: map[int]string{}, shardSpec: map[string][2]string{}, Counts: map[string]int{},
 		Sigs: map[string]struct{}{}, KFHits: map[string]int{}}
 	if olds, _ := filepath.Glob(fmt.Sprintf("/verif/replays/%s-*.json", p.Prop)); len(olds) > 0 {
 		for _, o := range olds {
@@ -232,7 +232,7 @@ func replayFile(path string) int {
 	}
 	scratch, _ := os.MkdirTemp("/dev/shm", "klev-verif-")
 	defer os.RemoveAll(scratch)
-	r := &SeqRun{P: p, Scratch: scratch, Tier: "quick", Seed: 1, hists: map[int]*History{}, hhists: map[int][]byte{}, fcases: map[int]frameCase{}, dcases: map[int]bool{}, ncases: map[int]*ncaseRef{}, chists: map[int]string{}, Counts: map[string]int{}, Sigs: map[string]struct{}{}, KFHits: map[string]int{}}
+	r := &SeqRun{P: p, Scratch: scratch, Tier: "quick", Seed: 1, hists: map[int]*History{}, hhists: map[int][]byte{}, fcases: map[int]frameCase{}, dcases: map[int]bool{}, ncases: map[int]*ncaseRef{}, chists: map[int]string{}, shardSpec: map[string][2]string{}, Counts: map[string]int{}, Sigs: map[string]struct{}{}, KFHits: map[string]int{}}
 	ok, line, ev := r.replayAny(&v)
 	if len(r.Infra) > 0 {
 		fmt.Fprintln(os.Stderr, "INFRA:", r.Infra)
